@@ -27,6 +27,16 @@ thread_local! {
     static LIVE_SNAPS: std::cell::RefCell<(std::collections::BTreeSet<u64>, std::collections::BTreeSet<u64>)> = std::cell::RefCell::new(Default::default());
 }
 
+thread_local! {
+    /// seek-charge tracker of the history running on this thread (see `seekcheck.rs`)
+    static SEEK: std::cell::RefCell<crate::seekcheck::SeekTracker> = std::cell::RefCell::new(crate::seekcheck::SeekTracker::default());
+}
+
+thread_local! {
+    /// sizes of the table files on the simulated filesystem of the history running on this thread
+    static TABLE_SIZES: std::cell::RefCell<Option<SimFs>> = std::cell::RefCell::new(None);
+}
+
 pub fn sched_reset() {
     SCHED.with(|t| { let mut t = t.borrow_mut(); t.reset(); t.checked = 0; });
 }
@@ -320,6 +330,13 @@ pub struct Stats {
     pub sched_steps_checked: u64,
     pub states_validated: u64,
     pub retention_checks: u64,
+    pub seek_gets_checked: u64,
+    pub seek_samples_checked: u64,
+    pub seek_charges: u64,
+    pub seek_events_skipped: u64,
+    pub seek_budgets_checked: u64,
+    pub seek_compactions_recorded: u64,
+    pub seek_compactions_by_model: u64,
 }
 
 pub struct RunOut {
@@ -816,6 +833,9 @@ pub fn run_history(h: &History, checks: &Checks, fs: &SimFs) -> RunOut {
     let mut completed = 0usize;
     let _ = raindb::verif::events_take(DB_PATH);
     raindb::verif::set_level_one_max_bytes(0);
+    raindb::verif::set_seek_events(checks.drv_path.is_some());
+    SEEK.with(|t| t.borrow_mut().reset_all());
+    TABLE_SIZES.with(|f| *f.borrow_mut() = Some(fs.clone()));
     sched_reset();
     let mut db: Option<DB> = match DB::open(cfg.options(fs)) {
         Ok(d) => Some(d),
@@ -860,6 +880,16 @@ pub fn run_history(h: &History, checks: &Checks, fs: &SimFs) -> RunOut {
                 }
                 stats.sched_steps_checked = t.checked;
             });
+            // seek charges, seek budgets and the recorded seek compaction against the model
+            SEEK.with(|t| {
+                let mut t = t.borrow_mut();
+                let size_of = |n: u64| -> Option<u64> {
+                    TABLE_SIZES.with(|f| f.borrow().as_ref().and_then(|fs| fs.read_file(std::path::Path::new(&format!("{DB_PATH}/data/{n}.rdb"))).map(|b| b.len() as u64)))
+                };
+                t.feed(&events, dr, &size_of);
+                t.learn(db, &st, dr);
+                t.check_state(&st, dr);
+            });
         }
         for ev in events {
             match ev {
@@ -878,6 +908,7 @@ pub fn run_history(h: &History, checks: &Checks, fs: &SimFs) -> RunOut {
                 Event::Rotate { .. } => {}
                 Event::Sched { .. } => {}
                 Event::Group { .. } => {}
+                Event::Seek { .. } => {}
             }
         }
         stats.max_l0 = stats.max_l0.max(st.levels[0].len());
@@ -1335,6 +1366,12 @@ pub fn run_history(h: &History, checks: &Checks, fs: &SimFs) -> RunOut {
                         }
                         t.reset();
                     });
+                    SEEK.with(|t| {
+                        let mut t = t.borrow_mut();
+                        let size_of = |n: u64| -> Option<u64> { fs.read_file(std::path::Path::new(&format!("{DB_PATH}/data/{n}.rdb"))).map(|b| b.len() as u64) };
+                        t.feed(&closing, dr, &size_of);
+                        t.reopened();
+                    });
                 }
                 cfg = newcfg.clone();
                 stats.reopens += 1;
@@ -1411,6 +1448,19 @@ pub fn run_history(h: &History, checks: &Checks, fs: &SimFs) -> RunOut {
             obs.push(Obs { sig: "c09:panic-in-close".into(), what: "closing the database panicked".into(), at: h.ops.len() });
         }
     }
+    SEEK.with(|t| {
+        let mut t = t.borrow_mut();
+        drift.extend(t.drift.drain(..));
+        stats.seek_gets_checked = t.gets_checked;
+        stats.seek_samples_checked = t.samples_checked;
+        stats.seek_charges = t.charges;
+        stats.seek_events_skipped = t.skipped;
+        stats.seek_budgets_checked = t.allowed_checked;
+        stats.seek_compactions_recorded = t.to_compact_seen;
+        stats.seek_compactions_by_model = t.to_compact_by_model;
+    });
+    TABLE_SIZES.with(|f| *f.borrow_mut() = None);
+    raindb::verif::set_seek_events(false);
     RunOut { drift, obs, stats, completed_ops: completed }
 }
 
